@@ -117,6 +117,12 @@ def build(pid="shared"):
             shutil.copytree(src, dst)
         else:
             shutil.copy(src, dst)
+    repo = os.environ.get("VERIF_REPO", "/repo")
+    if repo != "/repo":
+        # exploration runs against a snapshot of the repository (vp run --with-repo); the registered checks use /repo
+        gm = open(os.path.join(WORK, "go.mod")).read().replace("=> /repo", "=> " + repo)
+        open(os.path.join(WORK, "go.mod"), "w").write(gm)
+        shutil.copy(os.path.join(repo, "go.sum"), os.path.join(WORK, "go.sum"))
     os.makedirs(os.path.join(WORK, "m2gen"))
     shutil.copy(os.path.join(HARNESS, "m2gen", "doc.go"), os.path.join(WORK, "m2gen", "doc.go"))
     r = subprocess.run(["go", "build", "-tags", "verif", "-o", "digexec", "./cmd/digexec"], cwd=WORK, env=GOENV,
